@@ -107,6 +107,9 @@ func (c tcase) nontrivial() bool {
 }
 
 func run(c tcase) string {
+	if !c.direct && !lm.FormTakesAttrs(c.form) {
+		c.attrs = nil // the printf-style entry points carry no attributes
+	}
 	sink := &lm.Sink{}
 	h := logger.NewTextHandler(sink, logger.NewOptions(logger.LevelDebug, false, c.addSource))
 	var file string
